@@ -1,2 +1,7 @@
 -- Root of the `TLX` library: models, specifications and property theorems.
 import TLX.Props.C16
+import TLX.Props.C14
+import TLX.Props.C06
+import TLX.Props.C07
+import TLX.Props.C13
+import TLX.Props.C11
